@@ -151,6 +151,32 @@ func c06Histories(c *kc.Ctx, s *c06Suite, rng *kc.Rng) {
 					return "a pairing result used as an accumulator changes what a later Pair of the same operands returns"
 				}
 			}
+			// bilinearity with the products formed in every aliasing position of the target group's operation:
+			// e(P1,Q)·e(P2,Q) = e(P1+P2,Q) accumulated into the first operand, into the SECOND operand, into a
+			// third object; squaring with all three arguments the same object
+			P1, P2 := blsMulBase(s.g1, q, a), blsMulBase(s.g1, q, k)
+			Q1 := blsMulBase(s.g2, q, b2)
+			sum := su.Pair(s.g1.Point().Add(P1, P2), Q1)
+			forms := map[string]func() kyber.Point{
+				"acc.Add(acc, x)": func() kyber.Point { acc := su.Pair(P1, Q1); return acc.Add(acc, su.Pair(P2, Q1)) },
+				"acc.Add(x, acc)": func() kyber.Point { acc := su.Pair(P2, Q1); return acc.Add(su.Pair(P1, Q1), acc) },
+				"z.Add(x, y)":     func() kyber.Point { return s.gt.Point().Add(su.Pair(P1, Q1), su.Pair(P2, Q1)) },
+			}
+			for name, f := range forms {
+				if !f().Equal(sum) {
+					return "e(P1,Q)·e(P2,Q) formed as " + name + " is not e(P1+P2,Q)"
+				}
+			}
+			sq := su.Pair(P1, Q1)
+			sq.Add(sq, sq)
+			if !sq.Equal(su.Pair(s.g1.Point().Add(P1, P1), Q1)) {
+				return "e(P,Q) squared in place (x.Add(x, x)) is not e(2P,Q)"
+			}
+			df := su.Pair(P1, Q1)
+			df.Sub(su.Pair(s.g1.Point().Add(P1, P2), Q1), df)
+			if !df.Equal(su.Pair(P2, Q1)) {
+				return "e(P1+P2,Q)/e(P1,Q) formed as acc.Sub(x, acc) is not e(P2,Q)"
+			}
 			return ""
 		})
 		c.Eval(1)
